@@ -950,7 +950,7 @@ func runC06Request(c *fw.Ctx, id, proto string, port int, v6 bool) {
 	}
 	v := refmatch.VariantByName(vn)
 	target := drive.TargetFor(v, 40+c.Worker)
-	params := traceroute.TracerouteParams{Hostname: target.String(), Port: port, Protocol: proto, MinTTL: 1, MaxTTL: 5, Delay: 2, Timeout: 60 * time.Millisecond,
+	params := traceroute.TracerouteParams{Hostname: target.String(), Port: port, Protocol: proto, MinTTL: 1, MaxTTL: 5, Delay: 75, Timeout: 60 * time.Millisecond,
 		TCPMethod: traceroute.TCPConfigSYN, WantV6: v6, TracerouteQueries: 2, E2eQueries: 2}
 	wire := port
 	if wire == 0 {
